@@ -24,6 +24,12 @@ Theorem C16_front_modes_agree : forall e files,
 Proof. exact front_modes. Qed.
 Print Assumptions C16_front_modes_agree.
 
+(* with checked struct size arithmetic (the tree being checked: regenerated fact) the front end
+   is the same function in both modes, with no hypothesis *)
+Theorem C16_front_modes_agree_current : forall e files, front e Debug files = front e Release files.
+Proof. exact (front_modes_same eq_refl). Qed.
+Print Assumptions C16_front_modes_agree_current.
+
 (* an array size of 0 (or beyond 65535).  With the pinned upstream parse through ast_unwrap! it
    is a panic in Debug and undefined behaviour in Release (F10) ... *)
 Theorem C16_array_size_refuted_upstream :
